@@ -462,6 +462,9 @@ TieGroups ==
          IN {<<k, key[1], key[2]>> : key \in {y \in keys3 : SelectTie(grp(y))}} \cup
             {<<k, x[1], x[2]>> : x \in {y \in dp : MergeTie({s \in sel : IsNL(s) /\ <<s.inv, s.p>> = y})}}
          : k \in OpKeys(inst)}
+\* C12: nothing that is reported (constraint line or alternative in a comment) is below the acceptance threshold:
+\* at threshold 1 only what all instances have remains
+C12Below(obs) == IF \E f \in Facts(obs) : f[1] \in Keys /\ ~FreqOK(f[6], CC(f[1]), cfg.thr) THEN {"C12.belowthreshold"} ELSE {}
 OutsideTies(facts) == {f \in facts : <<f[1], f[2], f[3]>> \notin TieGroups}
 
 \* ---- schema of the operational model in the same shape as an observed one
